@@ -3,41 +3,50 @@
    counters are evaluated through the extracted [step] and printed:
      o<k> = property-level observables of step k, i<k> = internal ones (block layout, pool). *)
 let nat = nat_of_int
-let parse_op (t : string) : op =
+let parse_op_l (lq : int -> string -> nat) (ls : int -> string -> nat) (t : string) : op =
   match String.split_on_char ':' t with
   | ["qw"; i; h] -> QWrite (nat (ios i), bytes_of_hex h)
   | ["qb"; i; w; v] -> QWriteBE (nat (ios i), nat (ios w), n_of_string v)
-  | ["qr"; i; n] -> QRead (nat (ios i), nat (ios n))
-  | ["qs"; i; n] -> QReadStr (nat (ios i), nat (ios n))
-  | ["qk"; i; n] -> QPeek (nat (ios i), nat (ios n))
-  | ["qp"; i; n] -> QPop (nat (ios i), nat (ios n))
+  | ["qr"; i; n] -> QRead (nat (ios i), lq (ios i) n)
+  | ["qs"; i; n] -> QReadStr (nat (ios i), lq (ios i) n)
+  | ["qk"; i; n] -> QPeek (nat (ios i), lq (ios i) n)
+  | ["qp"; i; n] -> QPop (nat (ios i), lq (ios i) n)
   | ["qm"; i; j] -> QAppendMove (nat (ios i), nat (ios j))
   | ["qc"; i] -> QClear (nat (ios i))
   | ["sw"; j; h] -> SWrite (nat (ios j), bytes_of_hex h)
   | ["sb"; j; w; v] -> SWriteBE (nat (ios j), nat (ios w), n_of_string v)
-  | ["sr"; j; n] -> SRead (nat (ios j), nat (ios n))
-  | ["ss"; j; n] -> SReadStr (nat (ios j), nat (ios n))
-  | ["sp"; j; n] -> SPop (nat (ios j), nat (ios n))
+  | ["sr"; j; n] -> SRead (nat (ios j), ls (ios j) n)
+  | ["ss"; j; n] -> SReadStr (nat (ios j), ls (ios j) n)
+  | ["sp"; j; n] -> SPop (nat (ios j), ls (ios j) n)
   | ["sm"; j; i] -> SMove (nat (ios j), nat (ios i))
   | ["sd"; j] -> SDestroy (nat (ios j))
   | ["pg"] -> PoolPurge
   | _ -> failwith ("bad op " ^ t)
 
-let parse_mread (t : string) : mread =
-  let n = nat (ios (String.sub t 1 (String.length t - 1))) in
+(* lengths of any magnitude: executed as natlen (Len32.v, theorems c15_len_any...) *)
+let blen (l : buffer list) (i : int) : nat = try buf_size (List.nth l i) with _ -> nat 0
+let lenfor (l : buffer list) (i : int) (s : string) : nat = natlen (n_of_string s) (blen l i)
+let parse_op_st (st : state) (t : string) : op = parse_op_l (lenfor st.s_q) (lenfor st.s_s) t
+let parse_op2 (st : state2) (t : string) : op =
+  parse_op_l (lenfor (List.map snd st.m_q)) (lenfor (List.map snd st.m_s)) t
+
+let parse_mread (bound : nat) (t : string) : mread =
+  let n = natlen (n_of_string (String.sub t 1 (String.length t - 1))) bound in
   match t.[0] with 'r' -> MRead n | 's' -> MStr n | _ -> MIn n
 
-let parse_xop (t : string) : xop =
+let parse_xop (st : state) (t : string) : xop =
   match String.split_on_char ':' t with
   | ["xs"; j] -> SendS (nat (ios j))
   | ["xq"; i] -> SendQ (nat (ios i))
-  | ["xw"; k] -> PWrite (Some (nat (ios k)))
+  | ["xw"; k] -> PWrite (Some (lenfor st.s_q 0 k))
   | ["xe"] -> PWrite None
   | ["xl"] -> Limit
   | ["qi"; i; w] -> QIn (nat (ios i), nat (ios w))
   | ["mb"; h] -> MBuf (bytes_of_hex h, [])
-  | ["mb"; h; sc] -> MBuf (bytes_of_hex h, List.map parse_mread (String.split_on_char ',' sc))
-  | _ -> UOp (parse_op t)
+  | ["mb"; h; sc] ->
+    let d = bytes_of_hex h in
+    MBuf (d, List.map (parse_mread (nat (List.length d))) (String.split_on_char ',' sc))
+  | _ -> UOp (parse_op_st st t)
 
 exception Hazard of string
 let ok (r : 'a res) : 'a =
@@ -103,7 +112,7 @@ let handle_c (label, bsa, bsb, qm, sm, ops) : string =
   (try
     List.iteri (fun k t ->
       (try
-        let st', o = ok (step2 !st (parse_op t)) in
+        let st', o = ok (step2 !st (parse_op2 !st t)) in
         st := st';
         let specs = ref [] and inners = ref [] in
         List.iteri (fun i (_, bl) ->
@@ -127,6 +136,10 @@ let handle_c (label, bsa, bsb, qm, sm, ops) : string =
 let handle (p : string) : string =
   match split p with
   | label :: bsa :: bsb :: qm :: sm :: ops when label.[0] = 'C' -> handle_c (label, bsa, bsb, qm, sm, ops)
+  | label :: _ :: _ :: ops when label.[0] = 'T' ->
+    (* every run of every thread must give this trace: a default-constructed IOQueue and IOStack, each
+       with a private pool of DEFAULT_BLOCK_SIZE = 1024-byte blocks *)
+    handle_c (label, "1024", "1024", "A", "B", ops) ^ ";threads=ok;distinct=1"
   | [label; bsa; bsb; h; n] when label.[0] = 'P' ->
     (match cross_run (nat (ios bsa)) (nat (ios bsb)) (bytes_of_hex h) (nat (ios n)) with
      | Ok c ->
@@ -142,7 +155,7 @@ let handle (p : string) : string =
     (try
       List.iteri (fun k t ->
         (try
-          let x', y = ok (xstep (n_of_string max) !x (parse_xop t)) in
+          let x', y = ok (xstep (n_of_string max) !x (parse_xop !x.x_st t)) in
           x := x';
           let st = ref !x.x_st in
           let specs = ref [] and inners = ref [] in
@@ -172,7 +185,7 @@ let handle (p : string) : string =
     (try
       List.iteri (fun k t ->
         (try
-          let st', o = ok (step !st (parse_op t)) in
+          let st', o = ok (step !st (parse_op_st !st t)) in
           st := st';
           let specs = ref [] and inners = ref [] in
           List.iteri (fun i bl ->
